@@ -253,7 +253,40 @@ def make_dict_structure_fn(
         The `_cattrs_forbid_extra_keys` and `_cattrs_detailed_validation` parameters
         take their values from the given converter by default.
     """
+    # We keep track of what we're generating to help with recursive
+    # class graphs.
+    try:
+        working_set = already_generating.working_set
+    except AttributeError:
+        working_set = set()
+        already_generating.working_set = working_set
+    if cl in working_set:
+        raise RecursionError()
+    working_set.add(cl)
 
+    try:
+        return _make_dict_structure_fn(
+            cl,
+            converter,
+            _cattrs_forbid_extra_keys,
+            _cattrs_use_linecache,
+            _cattrs_detailed_validation,
+            **kwargs,
+        )
+    finally:
+        working_set.remove(cl)
+        if not working_set:
+            del already_generating.working_set
+
+
+def _make_dict_structure_fn(
+    cl: Any,
+    converter: BaseConverter,
+    _cattrs_forbid_extra_keys: bool | Literal["from_converter"],
+    _cattrs_use_linecache: bool,
+    _cattrs_detailed_validation: bool | Literal["from_converter"],
+    **kwargs: AttributeOverride,
+) -> Callable[[dict, Any], Any]:
     mapping = {}
     if is_generic(cl):
         base = get_origin(cl)
